@@ -31,6 +31,7 @@ class Ctx:
         self.store_host = None
         self.observer = None
         self.extra = {}
+        self.pid = None
 
     @property
     def k0(self):
@@ -332,7 +333,7 @@ class OperatorRun:
         q = pprobe.fork()
         q.trace = Const('trace0', Trace); q.calls = []; q.ghost = dict(q.ghost); q.ghost['stores_emitted'] = []
         q.ghost['store_ops'] = []
-        ctx = Ctx(eng, self.world, c, cfg, case)
+        ctx = Ctx(eng, self.world, c, cfg, case); ctx.pid = self.pid
         ctx.trace0 = q.trace; ctx.store_host = store; ctx.states = states; ctx.observer = observer; ctx.outer = outer
         ctx.m0, ctx.v0 = self.fresh_prestate(q, states)
         ctx.maps0 = {k[1]: v for k, v in q.store.extra.items() if isinstance(k, tuple) and k[0] == 'map'}
